@@ -507,6 +507,18 @@ impl<M: Manager, W: From<Object<M>>> Pool<M, W> {
                     break;
                 }
             }
+            // The permit of an idle object can be unavailable for a moment
+            // (a returning object is pushed before its permit is added, and
+            // a permit may already be assigned to a waiter which has not run
+            // yet). Surplus idle objects are released regardless.
+            while slots.size > slots.max_size {
+                if let Some(obj) = slots.vec.pop_front() {
+                    slots.size -= 1;
+                    released.push(obj);
+                } else {
+                    break;
+                }
+            }
             // Create a new VecDeque with a smaller capacity
             let mut vec = VecDeque::with_capacity(max_size);
             for obj in slots.vec.drain(..) {
